@@ -82,7 +82,8 @@ def fold_groups(ctx):
         g.first, g.stage1, g.engines = 'cadical', 90, ['cadical', 'cvc5']   # one 32/64-bit multiplier pair: cadical 8-20 s, minisat > 80 s
         G('Hash.%s.default-seed' % f, 'l_%s_default' % f, f, replace=[f], kind='lemma')
         G('Hash.%s.chain' % f, 'l_%s_chain' % f, f, replace=[f], kind='lemma', min_post=3)
-        G('Hash.%s[std::string]' % f, 'h_%s_str' % f, f + '(const std::string&, seed)', enforce=f + '_str', replace=[f], min_post=2)
+        G('Hash.%s[std::string]' % f, 'h_%s_str' % f, f + '(const std::string&, seed)', enforce=f + '_str', replace=[f], min_post=2,
+          replay=Replay(mode=f, **RP))
     return gs
 
 
@@ -342,12 +343,21 @@ def md_groups(ctx, name, u):
                     defines=D + ['C10_PB_REPLACED=1'], min_post=6, timeout=300, object_bits=12,
                     clause_note='contracts/C10_md.h: Merkle-Damgard driver and padding tail, size symbolic',
                     replay=Replay(mode=low, **RP)))
+    # measured (unloaded machine): MD5 block cadical 37 s, SHA1 block minisat/cvc5 18-30 s, SHA256 block cadical 60-75 s,
+    # constructors minisat 22-28 s; z3 never answers first.  One engine alone for the first stage keeps the CPU cost down.
+    gs[0].engines = gs[1].engines = ['minisat', 'cadical', 'cvc5']
+    gs[0].first, gs[0].stage1 = ('minisat' if name == 'SHA1' else 'cadical'), 60
+    gs[1].first, gs[1].stage1 = 'minisat', 60
     gs.append(Group(name='Hash.%s.bin' % name, harness=H, entry='h_bin', function='%s::bin' % name, enforce='%s_bin' % name,
                     replace=u.bin_stubs, defines=D, min_post=2,
                     replay=Replay(mode=low + '_bin', **RP)))
     gs.append(Group(name='Hash.%s.hex' % name, harness=H, entry='h_hex', function='%s::hex' % name, enforce='%s_hex' % name,
                     replace=['C10_string_printf_%d' % A['nw']], defines=D, min_post=2,
                     replay=Replay(mode=low + '_hex', **RP)))
+    if name == 'SHA256':
+        gs.append(Group(name='Hash.rotate_right', harness=H, entry='h_rotate_right', function='rotate_right', enforce='rotate_right',
+                        defines=D, clause_note='rotate_right(x, n) == FIPS 180-4 ROTR^n(x) for 0 < n < 32',
+                        replay=Replay(mode='sha256', **RP)))
     return gs
 
 
@@ -375,10 +385,66 @@ def plan(ctx):
     return groups
 
 
-EXPLANATION = ''
-TRUSTED = []
-ASSUMPTIONS = []
-DROPS = ''
-NOT_DECIDED = []
+EXPLANATION = (
+    'Lock-step ghost specification under loop contracts (DESIGN.md 3.4, A.3): a ghost accumulator is advanced by the step of the '
+    'standard (expression macros in spec/C10_*.h written from RFC 1952, the FNV definition, RFC 1321, FIPS 180-4) by ghost statements '
+    'injected at loop-body start; the loop invariant is real state == ghost state, so every iteration is one small loop-free query and '
+    'the proofs hold for buffers of every length. Pieces: crc32_table[i] == bit-serial division for symbolic i; crc32 / fnv1a32 / fnv1a64 '
+    'loops (contracts in running form: the call continues the specification run the seed denotes); default seeds; chaining lemmas over '
+    'the contracts (the seeded second call resumes the same specification run: ~~x == x for CRC); the three process_block lambdas '
+    '(word loads, message schedule satisfying the standard\'s defining equation at every index via ghost indices, 64/80 rounds in the '
+    'standard\'s operand order -- MD5 in the RFC\'s [ABCD k s i] register-pattern form --, add-back, and the number of specification steps performed is part of the postcondition); rotate_right == ROTR; the three constructors (Merkle-Damgard '
+    'driver with the block function and the StringWriter members replaced by contract: initial value, state threaded from block to block, '
+    'block i of message||0x80||0*||bitlength64 given exactly once in order for symbolic size and symbolic ghost position, minimal padded '
+    'length, length field byte order); bin() and hex() renderings at a ghost position. The composition "digest == standard" is the '
+    'definition of the iterated construction over these machine-checked pieces.')
+TRUSTED = [
+    'spec/C10_crc32.h, C10_fnv.h, C10_md5.h, C10_sha1.h, C10_sha256.h, C10_md_padding.h: the specification macros (transcriptions of the '
+    'standards; cross-checked natively against Python hashlib/zlib on lengths 0..300 and their constant tables against the defining '
+    'formulas by tools/C10_validate_spec.sh -- a validation of the spec, not part of the proof)',
+    'stubs/C10_writer.h: assumed contracts of StringWriter::write/put_u8/put_u32l/put_u32b/extend_to/pput_u64l/pput_u64b (the real class is '
+    'property C01), of the le_uint32_t conversion operator (proved by C03: little-endian numeral of the stored bytes) and of '
+    'string_printf for the format "%08X" x 4/5/8 (ISO C X conversion, flag 0, width 8; PRIX32 == "X")',
+    'the ghost statements and loop invariants listed in props/C10.py (ghost statements assign only g_* variables)',
+    'memcpy of 64 bytes: cbmc built-in model',
+]
+ASSUMPTIONS = [
+    'buffers are objects of the cbmc memory model: size < 2^(64 - object_bits) bytes (so size * 8 does not exceed 64 bits; for larger '
+    'sizes RFC 1321 keeps the low-order 64 bits and FIPS 180-4 is undefined)',
+    'allocation inside StringWriter / std::string succeeds (bad_alloc / length_error not modelled); the writer model holds at most 256 bytes '
+    '(Hash.cc never holds more than 128), exceeding it is a precondition violation, never accepted silently',
+    'quick tier: little-endian host model; thorough repeats the three block functions (the only host-order dependent code) under the '
+    'big-endian host model',
+    'lemma harnesses (default seed, chaining) take buffers from malloc under "allocation succeeded and the size is an object size"',
+]
+DROPS = ('process_block lambdas ([this] capture) lifted to C functions <ALG>_process_block(self, block) and cut out of the constructor text; '
+         'function-local static const tables (MD5 shifts / sine_table, SHA256 k) hoisted to file scope (dfcc havocs local statics); '
+         'StringWriter object -> stub object, its member calls -> stub calls; std::string return of bin()/hex() -> out-parameter; implicit '
+         'le_uint32_t -> uint32_t conversion -> explicit conversion call; implicit this in MD5::bin; string_printf -> per-arity stub; std::string '
+         'overloads of fnv1a32/64 -> (data, size) pair; delegating constructors MD5/SHA1/SHA256(const std::string&) and the struct member '
+         'lists are checked textually only (ExtractionBreak when they change)')
+NOT_DECIDED = [
+    'The last composition steps are definitional and not machine-checked: (i) an array that satisfies W_t = M_t (t < 16) and the schedule '
+    'recurrence at every index IS the standard\'s message schedule (induction on t); (ii) H(N) obtained by threading the chaining value '
+    'through blocks 0..N-1 of the padded message IS the standard\'s digest; (iii) crc32/fnv1a chaining: the lemma shows that the second, '
+    'seeded call resumes the specification run of the first (register equality), equality with the one-shot call on a||b then uses that '
+    'the specification run is a function of seed and octets.',
+    'MD5/SHA1/SHA256 have no incremental interface in phosg (constructors only): the chaining part of C10 applies to crc32, fnv1a32, fnv1a64.',
+    'Real StringWriter / string_printf / std::string behaviour (assumed by stub contracts, see TRUSTED); exception safety.',
+]
 CLAIMED = True
-MANIFEST = dict(category='proof', text='', note='', technique='')
+MANIFEST = dict(
+    category='proof',
+    text=('crc32 (table = bit-serial division by 0xEDB88320 for all 256 entries, RFC 1952 update loop, seed inversions, default seed), fnv1a32/64 '
+          '(recurrence, offset bases, std::string overloads), the MD5 / SHA-1 / SHA-256 block functions (word loads, message schedule, all rounds, '
+          'add-back) and constructors (initial value, block driver, padding tail for symbolic size), bin() and hex() are proved for inputs of '
+          'every length by loop contracts whose invariant ties the real state to a ghost accumulator advanced by the standard\'s own step '
+          '(lock-step specification); chaining of crc32/fnv1a is a lemma over the contracts. Thorough adds the big-endian host model for the '
+          'block functions.'),
+    note=('Trusted: cbmc/goto-instrument --dfcc and the answering solver, the extractor, the specification macros (validated natively against '
+          'hashlib/zlib, not part of the proof), the stub contracts for StringWriter (C01), the le_uint32_t conversion (C03) and "%08X" '
+          'formatting. Sizes are object sizes of the cbmc memory model (< 2^52 bytes). The final composition of the per-block and driver facts into '
+          '"digest of the whole message" is the definition of the Merkle-Damgard iteration / of a fold and is not itself machine-checked.'),
+    technique=('function + loop contracts enforced with goto-instrument --dfcc --apply-loop-contracts, lock-step ghost specification, ghost indices, '
+               'callees replaced by contract, discharged by cbmc (SAT/SMT portfolio)'),
+)
